@@ -219,6 +219,19 @@ class SymCtx(object):
     def vc(self, name, goal):
         self.it.vc(name, goal)
 
+    def identity(self, name, lhs, rhs, tol=None):
+        """an exact identity of real terms, for the ring normaliser"""
+        lhs, rhs = Num.of(lhs), Num.of(rhs)
+        self.it.vcs.append(("ring:" + name, list(self.it.pc), lhs.real() == rhs.real()))
+
+    def uf_terms(self, name):
+        """arguments of the applications of math.<name> made by the code so far (in call order)"""
+        out = []
+        for nm, t in self.it.info.get("uf_terms", []):
+            if nm == name:
+                out.append(tuple(Num("float", r=t.arg(i)) for i in range(t.num_args())))
+        return out
+
     def fresh_int(self, name):
         return self.it.fresh(name, "int")
 
@@ -348,7 +361,42 @@ class NativeCtx(object):
     def vc(self, name, goal):
         self.results.append((name, bool(goal)))
 
+    def identity(self, name, lhs, rhs, tol=1e-9):
+        self.results.append((name, abs(lhs - rhs) <= (tol or 1e-9) * max(1.0, abs(lhs), abs(rhs))))
+
+    def uf_terms(self, name):
+        return None
+
     def fresh_int(self, name):
         raise Rejected("existential witness needed natively: " + name)
 
     fresh_real = fresh_int
+
+
+# ------------------------------------------------ math usable in both modes
+def _m(name):
+    def f(*args):
+        if any(isinstance(a, Num) for a in args):
+            from .interp import UF
+            return Num("float", r=UF[name](*[Num.of(a).real() for a in args]))
+        return getattr(math, name)(*args)
+    f.__name__ = name + "_"
+    return f
+
+
+sin_, cos_, tan_, asin_, acos_, atan_, atan2_, sqrt_ = (_m(n) for n in
+                                                        ("sin", "cos", "tan", "asin", "acos", "atan", "atan2", "sqrt"))
+
+
+def radians_(x):
+    if isinstance(x, Num):
+        from .interp import pi_num
+        return (x * pi_num() / 180).as_float()
+    return math.radians(x)
+
+
+def pi_():
+    if z3 is None:
+        return math.pi
+    from .interp import pi_num
+    return pi_num()
